@@ -794,6 +794,9 @@ let dec_case (f : fmt) (input : string) (obs0 : string) : verdict =
             | Some r -> (match ref_values r with `Values v -> `Values v | _ -> `Other)
             | None -> `Other)
         else (match f.decode_stream doc 64 with `Values v -> `Values v | `Truncated x -> `Truncated x | _ -> `Other) in
+      (match find_flag "C16AFTER" flagl with
+       | Some x -> oracle := ("C16", "after an error another Next went on with the failed stream (verdict/events): " ^ x) :: ("C03", "after an error another Next went on with the failed stream: " ^ x) :: !oracle
+       | None -> ());
       (if vfail >= 0 then begin
          let total = List.fold_left (fun a (evs, _) -> a + List.length evs) 0 calls in
          if total > vfail + 1 then oracle := ("C16", "the decoder delivered events after the visitor failed") :: !oracle;
@@ -1563,6 +1566,11 @@ let deep_case (_f : fmt) (_input : string) (obs0 : string) : verdict =
   let obs, _ = split_flags_all obs0 in
   { model = obs; oracle = (if obs = "D ok" then [] else [ ("C03", "a document nested as deep as it is long was not parsed: " ^ obs) ]) }
 
+(* ---- C17: an encoder used for a second document (any first document, scalars included) ---- *)
+let encreuse_case (_f : fmt) (_input : string) (obs0 : string) : verdict =
+  let obs, _ = split_flags_all obs0 in
+  { model = obs; oracle = (if obs = "R same" || obs = "R skip" then [] else [ ("C17", "an encoder used before writes something else for the next document than a new one: " ^ obs) ]) }
+
 (* ---- C10 / C01: typed arrays of 2^16 elements and more (no model: the extracted encoders are quadratic there) ---- *)
 let big_case (_f : fmt) (_input : string) (obs0 : string) : verdict =
   let obs, _ = split_flags_all obs0 in
@@ -1592,7 +1600,9 @@ let bigstr_case (f : fmt) (input : string) (obs0 : string) : verdict =
 (* ---- C11: self-referential types (no model: the Go side compares original and copy) ---- *)
 let rec_case (_input : string) (obs0 : string) : verdict =
   let obs, _ = split_flags_all obs0 in
-  { model = obs; oracle = (if obs = "R ok EQ" then [] else [ ("C11", "a value of a self-referential type was not reproduced: " ^ obs) ]) }
+  { model = obs; oracle = (if obs = "R ok EQ" then [] else
+      ("C11", "a value of a self-referential type was not reproduced: " ^ obs)
+      :: (if contains obs "PANIC" || contains obs "HANG" then [ ("C14", "unfolding into a self-referential type crashed or hung: " ^ obs) ] else [])) }
 
 (* ---- C02: every single cut and byte-at-a-time ---- *)
 let scut_case (f : fmt) (input : string) (obs0 : string) : verdict =
@@ -1630,7 +1640,7 @@ let () = all_fmts := fmts
 let fmt_handlers =
   ("xc", xc_case) :: ("adapt", adapt_case) :: ("expobj", expobj_case) ::
   List.concat_map (fun f -> [ (f.fname ^ "enc", enc_case f); (f.fname ^ "parse", parse_case f); (f.fname ^ "dec", dec_case f);
-                              ("rt" ^ f.fname, rt_case f); ("x10" ^ f.fname, x10_case f); ("hist" ^ f.fname, hist_case f); ("wafter" ^ f.fname, wafter_case f); ("deep" ^ f.fname, deep_case f); ("big" ^ f.fname, big_case f); ("bigstr" ^ f.fname, bigstr_case f); ("cuts" ^ f.fname, cuts_case f); ("scut" ^ f.fname, scut_case f) ]) fmts
+                              ("rt" ^ f.fname, rt_case f); ("x10" ^ f.fname, x10_case f); ("hist" ^ f.fname, hist_case f); ("wafter" ^ f.fname, wafter_case f); ("deep" ^ f.fname, deep_case f); ("big" ^ f.fname, big_case f); ("encreuse" ^ f.fname, encreuse_case f); ("bigstr" ^ f.fname, bigstr_case f); ("cuts" ^ f.fname, cuts_case f); ("scut" ^ f.fname, scut_case f) ]) fmts
 
 (* a crash or hang is compared as such: what was delivered before is not part of the observation *)
 let canon_obs (o : string) : string =
